@@ -647,7 +647,8 @@ theorem diStepL_eq (aii : Nat) (M : Array K) (e : DIEntry) (ht : e.t < M.size)
   have h := diStepU_eq M e ht hne
   unfold diStepU at h
   unfold diStepL
-  simp only [h, rd_wr_same _ _ _ ht, wr_wr_same, rd_wr_ne _ _ _ _ ha.symm]
+  simp only [h, rd_wr_same _ _ _ ht, wr_wr_same]
+  rw [rd_wr_ne _ _ _ _ ha.symm]
 
 /-- strictly lower part of a pattern -/
 def lowB (P : Pattern) (r c : Nat) : Bool := pres P r c && decide (c < r)
@@ -840,5 +841,117 @@ theorem diLPhase (h : IPSetup n P) (M : Array K) (i : Nat) (hi : i < n) (hMs : M
     omega
 
 end inplace
+
+section inplaceRows
+variable {n : Nat} {P : Pattern}
+
+theorem diStep_agree (h : IPSetup n P) (s : LU K) (M M0 : Array K) (i : Nat) (hi : i < n)
+    (hMs : M.size = P.nnz) (hag : AgreeIP n P i s M M0) :
+    (diStep M (diRow P n i)).size = P.nnz ∧
+    AgreeIP n P (i + 1) (sstage (view P M0) (pres P) (lowB P) (uppB P) i s)
+      (diStep M (diRow P n i)) M0 := by
+  obtain ⟨u1, u2, u3⟩ := diUPhase h M i hi hMs
+  simp only [diStep, diRow]
+  generalize ((rangeFrom i n).filterMap (diUEntry P i)).foldl diStepU M = M1 at u1 u2 u3
+  obtain ⟨l1, l2, l3⟩ := diLPhase h M1 i hi u1
+  generalize ((rangeFrom (i + 1) n).filterMap (diLEntry P i)).foldl (diStepL (P.rk i i)) M1
+    = M2 at l1 l2 l3
+  -- U rows ≤ i as held by M1
+  have hU : ∀ r c, r < n → c < n → P.zero? r c = false → r ≤ c → r < i + 1 →
+      rd M1 (P.rk r c) = (sstage (view P M0) (pres P) (lowB P) (uppB P) i s).U r c := by
+    intro r c hr hc hp hrc hri
+    by_cases hr' : r = i
+    · subst hr'
+      rw [u2 c hrc hc hp, sstage_U_row _ _ _ _ _ _ c hrc
+        (by rw [uppB_eq _ _ _ hrc]; exact (pres_true _ _ _).mpr hp), av_view,
+        hag.rest r c hr hc hp (le_refl r) hrc, view_present _ _ _ _ hp]
+      congr 1
+      apply sum_congr rfl
+      intro j hj
+      have hj' := mem_range.mp hj
+      rw [lowB_eq _ _ _ hj', uppB_eq _ _ _ (show j ≤ c by omega)]
+      split
+      · next hc' =>
+        rw [hag.L_eq r j hr (by omega) ((pres_true _ _ _).mp hc'.1) hj' hj',
+          hag.U_eq j c (by omega) hc ((pres_true _ _ _).mp hc'.2) (by omega) hj']
+      · rfl
+    · rw [u3 r c hr hc hp (by omega), sstage_U_old _ _ _ _ _ _ r c (by omega)]
+      exact hag.U_eq r c hr hc hp hrc (by omega)
+  refine ⟨l1, ⟨?_, ?_, ?_⟩⟩
+  · intro r c hr hc hp hrc hri
+    rw [l3 r c hr hc hp (by omega)]
+    exact hU r c hr hc hp hrc hri
+  · intro r c hr hc hp hcr hci
+    by_cases hc' : c = i
+    · subst hc'
+      rw [l2 r hcr hr hp, sstage_L_col _ _ _ _ _ _ r hcr
+        (by rw [lowB_eq _ _ _ hcr]; exact (pres_true _ _ _).mpr hp), av_view,
+        hU c c hc hc (h.diag c hc) (le_refl c) (by omega),
+        u3 r c hr hc hp (by omega), hag.rest r c hr hc hp (by omega) (le_refl c),
+        view_present _ _ _ _ hp]
+      congr 2
+      apply sum_congr rfl
+      intro j hj
+      have hj' := mem_range.mp hj
+      rw [lowB_eq _ _ _ (show j < r by omega), uppB_eq _ _ _ (show j ≤ c by omega)]
+      split
+      · next hc' =>
+        rw [u3 r j hr (by omega) ((pres_true _ _ _).mp hc'.1) (by omega),
+          hag.L_eq r j hr (by omega) ((pres_true _ _ _).mp hc'.1) (by omega) hj',
+          hU j c (by omega) hc ((pres_true _ _ _).mp hc'.2) (by omega) (by omega)]
+      · rfl
+    · rw [l3 r c hr hc hp (by omega), u3 r c hr hc hp (by omega),
+        sstage_L_old _ _ _ _ _ _ r c (by omega)]
+      exact hag.L_eq r c hr hc hp hcr (by omega)
+  · intro r c hr hc hp hir hic
+    rw [l3 r c hr hc hp (by omega), u3 r c hr hc hp (by omega)]
+    exact hag.rest r c hr hc hp (by omega) (by omega)
+
+theorem diRows_agree (h : IPSetup n P) (m0 : Array K) (hMs : m0.size = P.nnz) (s0 : LU K)
+    (m : Nat) (hm : m ≤ n) :
+    (((List.range m).map (diRow P n)).foldl diStep m0).size = P.nnz ∧
+    AgreeIP n P m (slu (view P m0) (pres P) (lowB P) (uppB P) s0 m)
+      (((List.range m).map (diRow P n)).foldl diStep m0) m0 := by
+  induction m with
+  | zero =>
+    exact ⟨hMs, ⟨by intros; omega, by intros; omega, fun _ _ _ _ _ _ _ => rfl⟩⟩
+  | succ m ih =>
+    obtain ⟨g1, g2⟩ := ih (by omega)
+    rw [List.range_succ, List.map_append, List.foldl_append]
+    simp only [List.map_cons, List.map_nil, List.foldl_cons, List.foldl_nil]
+    exact diStep_agree h _ _ m0 m (by omega) g1 g2
+
+/-- C03 core for `doolittleInPlaceCell`: the array that held `A` (zero on the fill-in slots, as
+    the contract requires: it is all part of `view P m0`) holds afterwards the strict lower part
+    of the dense Doolittle `L` and the upper part of `U`. -/
+theorem doolittleInPlaceCell_view (h : IPSetup n P) (hn : P.n = n) (m0 : Array K)
+    (hMs : m0.size = P.nnz) (r c : Nat) (hr : r < n) (hc : c < n) :
+    view P (doolittleInPlaceCell (doolittleInPlaceRows P) m0) r c
+      = if c < r then (DenseLU.lu (view P m0) n).L r c else (DenseLU.lu (view P m0) n).U r c := by
+  rw [doolittleInPlaceCell_eq, doolittleInPlaceRows_eq, hn]
+  obtain ⟨_, hag⟩ := diRows_agree h m0 hMs DenseLU.init n (le_refl n)
+  have hrel := SparseLU.rel_slu n (view P m0) (pres P) (lowB P) (uppB P) h.closed
+    (fun r c hp => view_absent _ _ _ _ ((pres_false _ _ _).mp hp)) DenseLU.init n (le_refl n)
+  generalize ((List.range n).map (diRow P n)).foldl diStep m0 = M at hag
+  cases hp : P.zero? r c
+  · rw [view_present _ _ _ _ hp]
+    split
+    · next hcr =>
+      rw [hag.L_eq r c hr hc hp hcr hc]
+      exact hrel.L_on r c hc hcr hr (by rw [lowB_eq _ _ _ hcr]; exact (pres_true _ _ _).mpr hp)
+    · next hcr =>
+      rw [hag.U_eq r c hr hc hp (by omega) hr]
+      exact hrel.U_on r c hr (by omega) hc
+        (by rw [uppB_eq _ _ _ (by omega)]; exact (pres_true _ _ _).mpr hp)
+  · rw [view_absent _ _ _ _ hp]
+    split
+    · next hcr =>
+      exact (hrel.L_off r c hc hcr hr
+        (by rw [lowB_eq _ _ _ hcr]; exact (pres_false _ _ _).mpr hp)).symm
+    · next hcr =>
+      exact (hrel.U_off r c hr (by omega) hc
+        (by rw [uppB_eq _ _ _ (by omega)]; exact (pres_false _ _ _).mpr hp)).symm
+
+end inplaceRows
 
 end Micm
